@@ -214,6 +214,11 @@ func (os *OutputStream) Delete(inputID robust.Id) error {
 		if err := os.db.Put(key[:], os.lastseen.marshal(), nil); err != nil {
 			return err
 		}
+		// The cached copy of the previous message still points to the
+		// message which is being deleted.
+		os.cacheMu.Lock()
+		delete(os.messagesCache, uint64(os.lastseen.Messages[0].Id.Id))
+		os.cacheMu.Unlock()
 	}
 	os.cacheMu.Lock()
 	delete(os.messagesCache, uint64(inputID.Id))
@@ -303,6 +308,13 @@ func (os *OutputStream) GetNext(ctx context.Context, lastseen robust.Id) []Messa
 			}
 			os.messagesMu.Unlock()
 			return next.Messages
+		}
+		if current.NextID < math.MaxUint64 {
+			// NextID points to a message which was deleted in the
+			// meantime, but there might be more recent messages already
+			// (for which we will not be woken up again), so start over.
+			os.messagesMu.Unlock()
+			return os.GetNext(ctx, lastseen)
 		}
 		select {
 		case <-ctx.Done():
